@@ -188,7 +188,8 @@ func C16() int {
 		defer srv.Close()
 		dir := s.TempDir("c16")
 		defer os.RemoveAll(dir)
-		outp := filepath.Join(dir, "out.log")
+		// the output name is a name, whatever characters it holds (percent signs, blanks, a trailing dot)
+		outp := filepath.Join(dir, []string{"out.log", "incident-cpu100%.redacted.log", "my%20logs %d.log", "out", "%s%v.log.", "re dacted.2024-06-01.log"}[ci%6])
 		args := []string{"redact", "--atlasProjectId", project, "--atlasClusterName", cluster, "-o", outp}
 		if S != 0 {
 			args = append(args, "--atlasLogStartDate", strconv.Itoa(S), "--atlasLogEndDate", strconv.Itoa(E))
@@ -389,6 +390,11 @@ func c16RefusedHost(s *sut.SUT, c *ev.Check) {
 			// still downloaded at most once.
 			// (a reset BEFORE any response byte is not among them: net/http itself re-sends an idempotent request
 			// whose reused keep-alive connection turned out dead - the tool still performs one download)
+			if k == n-1 && (n == 2 || thorough(c)) {
+				// status -4: no fault at all, but host k's log arrives slowly (a healthy transfer that takes
+				// 33 s in total): every per-host output is complete in the end
+				cases = append(cases, cse{n, k, -4})
+			}
 			for _, st := range []int{-1, -3} {
 				if (n+k+st)%2 == 0 || thorough(c) || k == n-1 {
 					cases = append(cases, cse{n, k, st})
@@ -400,7 +406,7 @@ func c16RefusedHost(s *sut.SUT, c *ev.Check) {
 		cs := cases[ci]
 		faultName := fmt.Sprintf("status-%d", cs.status)
 		if cs.status < 0 {
-			faultName = []string{"transient-cut", "transient-reset", "transient-503"}[-cs.status-1]
+			faultName = []string{"transient-cut", "transient-reset", "transient-503", "slow-33s"}[-cs.status-1]
 		}
 		cfg, _, raws, names := c17Build(c.Seed+16, ci*4, c17Case{cs.n, cs.k, faultName})
 		srv, err := atlasfake.New(cfg)
@@ -415,7 +421,7 @@ func c16RefusedHost(s *sut.SUT, c *ev.Check) {
 		flags := [][]string{nil, {"-n", "-w"}}[ci%2]
 		env := append(atlasEnv(srv, dir), "ATLAS_PUBLIC_KEY="+atlasPub, "ATLAS_PRIVATE_KEY="+atlasPriv)
 		args := append([]string{"redact", "--atlasProjectId", cfg.Project, "--atlasClusterName", cfg.Cluster, "-o", outp}, flags...)
-		r := s.CLI(sut.Run{Args: args, Dir: dir, Env: env, Timeout: 3 * time.Minute})
+		r := s.CLI(sut.Run{Args: args, Dir: dir, Env: env, Timeout: 6 * time.Minute})
 		if r.TimedOut {
 			c.Inconclusive("watchdog on an Atlas CLI run")
 			return
@@ -424,6 +430,10 @@ func c16RefusedHost(s *sut.SUT, c *ev.Check) {
 		if cs.status < 0 {
 			label = fmt.Sprintf("%d hosts, first download of host %d fails (%s), a repeated one would succeed", cs.n, cs.k, faultName)
 			c.Count("transient_fault_runs", 1)
+			if cs.status == -4 {
+				label = fmt.Sprintf("%d hosts, the log of host %d is delivered slowly (33 s for the body, no fault)", cs.n, cs.k)
+				c.Count("slow_transfer_runs", 1)
+			}
 		}
 		c.Count("refused_host_runs", 1)
 		c.Eval("refused|" + label)
@@ -475,6 +485,9 @@ func c16RefusedHost(s *sut.SUT, c *ev.Check) {
 			if bytes.Equal(want, got) {
 				complete++
 			}
+		}
+		if cs.status == -4 && (r.Exit != 0 || complete != len(names)) {
+			c.Violation("slow-transfer-not-completed|refused-host", fmt.Sprintf("%s: exit %d, %d of %d per-host outputs complete", label, r.Exit, complete, len(names)), rp)
 		}
 		if r.Exit == 0 && complete != len(names) {
 			c.Violation("success-with-missing-host|refused-host", fmt.Sprintf("%s: the run reports success but only %d of %d per-host outputs are complete", label, complete, len(names)), rp)
